@@ -151,14 +151,27 @@ def run(ck):
                          {'reports': lst[:6], 'a_call_that_triggered_a_report': list(ub_replays.values())[:3],
                           'how': 'build/bin/h_gsl-* <replay line> (UBSan prints to stderr)'})
     fn_with_input = {}
+    per_kind, overflow = {}, {}
+
+    def capped(sig, what, rep, found_input=True):
+        """at most 6 VIOLATION lines per kind of signature; the rest is summarised in one more"""
+        known = any(k.get('property') == ck.pid and k.get('status') == 'open' and re.fullmatch(k['match'], sig) for k in ck.known)
+        kind = sig.split(':')[0]
+        if not known:
+            per_kind[kind] = per_kind.get(kind, 0) + 1
+            if per_kind[kind] > 6:
+                overflow.setdefault(kind, []).append(sig)
+                return
+        ck.add_violation(sig, what, rep, found_input)
+
     for sig, cnt, what in findings:
         if sig.startswith('ubsan-report:'):
             continue
         fn = sig.split(':')[1] if ':' in sig else ''
         fn_with_input.setdefault(fn, (sig, what))
-        ck.add_violation(sig, '%s (%d such observations in this run): %s' % (sig, cnt, what[:400]),
-                         {'replay_line': what.split('  #')[0], 'detail': what,
-                          'cmd': '%s %s' % (exe, what.split('  #')[0])})
+        capped(sig, '%s (%d such observations in this run): %s' % (sig, cnt, what[:400]),
+               {'replay_line': what.split('  #')[0], 'detail': what,
+                'cmd': '%s %s' % (exe, what.split('  #')[0])})
     if crashed:
         ck.add_violation('harness-terminated', 'the harness process died (rc=%s) while/after: %s' % crashed,
                          {'last_begin': crashed[1], 'cmd': '%s %s' % (exe, crashed[1])})
@@ -188,11 +201,14 @@ def run(ck):
             proof_ok = False
     for nm, lst in sorted(unexplained.items()):
         has_input = nm in fn_with_input
-        ck.add_violation('model-differs:%s' % nm,
+        capped('model-differs:%s' % nm,
                          'the generated skeleton of %s does not explain what the compiled binding did: %s -> %s (%d calls)' % (nm, lst[0][0], lst[0][1], len(lst)),
                          {'call': lst[0][0], 'driver': lst[0][1], 'more': [x[0] for x in lst[1:4]], 'oracle_finding_for_same_function': fn_with_input.get(nm)},
                          found_input=has_input)
 
+    for kind, sigs in sorted(overflow.items()):
+        ck.add_violation('%s:and-%d-more' % (kind, len(sigs)), '%d further failing input classes of kind %s: %s' % (len(sigs), kind, sigs[:40]),
+                         {'signatures': sigs})
     # ---------------------------------------------------------------- obligations that no longer check
     for p in problems:
         kind = p.split(':')[0]
@@ -201,9 +217,14 @@ def run(ck):
                          found_input=False)
     if not proof_ok and not hard:
         named = False
-        for fn in (bad_fns or []):
+        for k_, fn in enumerate(bad_fns or []):
             named = True
             hit = fn_with_input.get(fn)
+            if k_ >= 6:
+                if k_ == 6:
+                    ck.add_violation('undisciplined:and-%d-more' % (len(bad_fns) - 6), 'further skeletons failing the discipline analysis: %s' % bad_fns[6:60],
+                                     {'functions': bad_fns[6:]}, found_input=any(f in fn_with_input for f in bad_fns[6:]))
+                continue
             ck.add_violation('undisciplined:%s' % fn,
                              'the skeleton of %s no longer passes the discipline analysis (a path returns without check_result / without an error / leaving a requested partial unassigned)%s'
                              % (fn, ('; failing input on the real code: ' + hit[1][:300]) if hit else ''),
